@@ -110,7 +110,7 @@ def r1(run, ctx):
                                   'current children', f, node.ast,
                                   '%s signals %s, which is not the worker or a child of it'
                                   % (f.qualname, txt))
-    run.count('R1', n, 5, 'OS signal primitive call sites')
+    run.count('R1', n, 3, 'OS signal primitive call sites')
     sc = ctx.fn(P + 'send_signal_child')
     t = norm_text(sc.node)
     run.check('R1', 'get_children(self._worker)' in t and 'children[pid].send_signal(signum)' in t
